@@ -30,7 +30,7 @@ package dastard
 //@ lemma mulmono C19: forall a int, b int, s int :: {mul(a, s), mul(b, s)} 0 <= a && a <= b && s >= 0 ==> mul(a, s) <= mul(b, s) && 0 <= mul(a, s)
 
 //@ pred Dev(ls *LanceroSource, d int) := at(ls.active, ls.active.off + d)
-//@ pred Base(ls *LanceroSource, d int) := mul(Dev(ls, d).devnum, ls.chanSepCards) + ls.firstRowChanNum
+//@ pred CardBase(ls *LanceroSource, d int) := mul(Dev(ls, d).devnum, ls.chanSepCards) + ls.firstRowChanNum
 //@ pred ColSep(ls *LanceroSource, dev *LanceroDevice) := ite(ls.chanSepColumns > 0, ls.chanSepColumns, dev.nrows)
 
 // DevsOK: active cards are real and distinct, with 1..65535 rows and columns; the total is ls.nchan.
@@ -62,7 +62,7 @@ package dastard
 // Numbering invariants over the first n table entries.
 //@ pred Partners(ls *LanceroSource, n int) := forall i int :: {ls.chanNumbers[i]} 0 <= i && i + 1 < n && i % 2 == 0 ==> ls.chanNumbers[i] == ls.chanNumbers[i + 1] && ls.rowColCodes[i] == ls.rowColCodes[i + 1]
 //@ pred GeoAll(ls *LanceroSource, n int) := forall i int :: {ls.gdv[i]} 0 <= i && i < n ==> Geo(ls, i)
-//@ pred InCard(ls *LanceroSource, n int) := ls.chanSepCards > 0 ==> (forall i int :: {ls.chanNumbers[i]} 0 <= i && i < n ==> Base(ls, ls.gdv[i]) <= ls.chanNumbers[i] && ls.chanNumbers[i] < Base(ls, ls.gdv[i]) + ls.chanSepCards)
+//@ pred InCard(ls *LanceroSource, n int) := ls.chanSepCards > 0 ==> (forall i int :: {ls.chanNumbers[i]} 0 <= i && i < n ==> CardBase(ls, ls.gdv[i]) <= ls.chanNumbers[i] && ls.chanNumbers[i] < CardBase(ls, ls.gdv[i]) + ls.chanSepCards)
 //@ pred Ordered(ls *LanceroSource, n int) := forall i int, j int :: {ls.chanNumbers[i], ls.chanNumbers[j]} 0 <= i && i < j && j < n && i % 2 == 0 && j % 2 == 0 && (ls.chanSepCards == 0 || ls.gdv[i] == ls.gdv[j]) ==> ls.chanNumbers[i] < ls.chanNumbers[j]
 //@ pred Below(ls *LanceroSource, n int, d int, next int) := forall i int :: {ls.chanNumbers[i]} 0 <= i && i < n && (ls.chanSepCards == 0 || ls.gdv[i] == d) ==> ls.chanNumbers[i] < next
 //@ pred CardOf(ls *LanceroSource, n int, d int) := forall i int :: {ls.gdv[i]} 0 <= i && i < n ==> (ls.gdv[i] <= d && (i >= ls.gch[d] ==> ls.gdv[i] == d))
@@ -131,7 +131,7 @@ package dastard
 //@     invariant ordered: Ordered(ls, index)
 //@     invariant groups: Groups(ls, index) && GroupsFull(ls, len(ls.groupKeysSorted), index)
 //@     invariant below: Below(ls, index, rangeindex3, ite(ls.chanSepColumns > 0, thisColFirstCnum + ls.chanSepColumns, cnum)) && (ls.chanSepColumns > 0 ==> cnum <= thisColFirstCnum + ls.chanSepColumns)
-//@     invariant next: ls.chanSepCards > 0 ==> ite(ls.chanSepColumns > 0, thisColFirstCnum + ls.chanSepColumns, cnum) == Base(ls, rangeindex3) + mul(col, ColSep(ls, device))
+//@     invariant next: ls.chanSepCards > 0 ==> ite(ls.chanSepColumns > 0, thisColFirstCnum + ls.chanSepColumns, cnum) == CardBase(ls, rangeindex3) + mul(col, ColSep(ls, device))
 //@     apply mulstep(col, device.nrows) && frameindex(col, device.ncols, 0, device.nrows) && mulstep(col, ColSep(ls, device))
 //@   loop 5
 //@     invariant 0 <= rangeindex3 && rangeindex3 < len(ls.active) && device == Dev(ls, rangeindex3) && 0 <= col && col < device.ncols && 0 <= row && row <= device.nrows && Fixed(ls)
@@ -145,7 +145,7 @@ package dastard
 //@     invariant groups: Groups(ls, index) && GroupsFull(ls, len(ls.groupKeysSorted) - 1, index) && GroupFull(ls, len(ls.groupKeysSorted) - 1, row, index)
 //@     invariant group: len(ls.groupKeysSorted) >= 1 && ls.groupKeysSorted[len(ls.groupKeysSorted) - 1].Firstchan == thisColFirstCnum && ls.groupKeysSorted[len(ls.groupKeysSorted) - 1].Nchan == device.nrows && (row > 0 ==> ls.gfirst[len(ls.groupKeysSorted) - 1] == index - 2 * row)
 //@     invariant below: Below(ls, index, rangeindex3, cnum) && cnum == thisColFirstCnum + row
-//@     invariant next: ls.chanSepCards > 0 ==> thisColFirstCnum == Base(ls, rangeindex3) + mul(col, ColSep(ls, device))
+//@     invariant next: ls.chanSepCards > 0 ==> thisColFirstCnum == CardBase(ls, rangeindex3) + mul(col, ColSep(ls, device))
 //@     apply frameindex(col, device.ncols, row, device.nrows) && mulstep(col, device.nrows) && frameindex(col, device.ncols, row, ColSep(ls, device)) && mulstep(col, ColSep(ls, device))
 
 // ---- Abaco numbering ----
